@@ -48,6 +48,9 @@ Proof. intros. cyc. Qed.
 Lemma rem_wrap : forall cap s pos, s < cap -> pos < cap -> next_pos cap pos = s -> rem cap s pos = 1.
 Proof. intros. cyc. Qed.
 
+Lemma rem_pos : forall cap s pos, s < cap -> pos < cap -> 1 <= rem cap s pos.
+Proof. intros. cyc. Qed.
+
 Lemma rem_dist : forall cap s pos, s < cap -> pos < cap -> rem cap s pos + dist cap s pos = cap.
 Proof. intros. cyc. Qed.
 
